@@ -8,7 +8,7 @@ from . import pcommon as pc
 def run(tier):
     ck = C.Check("C16", tier)
     failed = ck.proofs()
-    n_g, n_r = (30, 8) if tier == "quick" else (1500, 30)
+    n_g, n_r = (30, 8) if tier == "quick" else (800, 30)
     res = P.run_family(ck, n_g, n_r, p_err=0.4, want_hist=True)
     hists = bad = 0
     kinds = {"ok": 0, "synerr": 0, "acterr": 0, "recovered": 0}
